@@ -188,7 +188,7 @@ def strat_nndvi(tier):
     @st.composite
     def s(draw):
         d = draw(st.integers(1, 3))
-        p = {"k_nn": draw(st.integers(1, 6)), "sampling_times": draw(st.integers(2, 30)), "alpha": draw(st.sampled_from([0.01, 0.05, 0.2, 0.4, 0.5]))}
+        p = {"k_nn": draw(st.integers(1, 6)), "sampling_times": draw(st.one_of(st.integers(2, 30), st.integers(2, 30), st.integers(2, 30), st.sampled_from([100, 250, 251, 300, 499, 512, 600]))), "alpha": draw(st.sampled_from([0.01, 0.05, 0.2, 0.4, 0.5]))}
         items = draw(vs.batch_history(d, n_min=3, n_max=8, rows_min=4, rows_max=20, spread=2, shift=3, denom=4, p_shift=0.4))
         return {"params": p, "items": items, "seed_base": draw(vs.seed_base)}
 
@@ -203,7 +203,7 @@ PROPERTY = {
         "a row of sample 1 is planted into sample 2 in a quarter of the cases) x k 1..6: D / v1 / v2 vs. set membership, adjacency = validity "
         "predicate of the k-nearest-neighbour relation (self included, ties admitted), nnps_matrix normalisation, distance vs. definition, "
         "symmetry under swapping, range [0,1], 0 for a reordered/duplicated copy. Non-trivial = unequal sizes and a row shared by both samples. "
-        "nndvi: 3-8 batches (4-20 rows) with shifts x k_nn x sampling_times 2..30 x alpha; reference model with own membership/distance and "
+        "nndvi: 3-8 batches (4-20 rows) with shifts x k_nn x sampling_times 2..30 (a quarter of the cases 100..600) x alpha; reference model with own membership/distance and "
         "same-seed permutation threshold; drift_state and reference_batch after every update. Non-trivial = a drift followed by a non-drift."
     ),
     "assumptions": [
